@@ -5,6 +5,7 @@
 package chainfx
 
 import (
+	"bytes"
 	"crypto/ecdsa"
 	"fmt"
 	"math/big"
@@ -282,6 +283,66 @@ type World struct {
 	Addrs []common.Address
 	Opts  Opts
 	T0    time.Time
+	// Genesis, when set, shapes the genesis state after the configured allocation (through the overlay's genesis hook,
+	// identically on every replica of the world)
+	Genesis func(app *appstate.AppState)
+}
+
+// AddFresh appends n keys that own nothing at genesis (they can be invited and activated later).
+func (w *World) AddFresh(n int) {
+	for j := 0; j < n; j++ {
+		k := DetKey(w.Seed, 1000+j)
+		w.Keys = append(w.Keys, k)
+		w.Addrs = append(w.Addrs, crypto.PubkeyToAddress(k.PublicKey))
+	}
+}
+
+// Seasoned gives every validated genesis identity a validation history (four perfect sessions of six flips), so that
+// a genesis Verified / Human is judged like a long-standing one and is not terminated by its first ceremony for lack of
+// qualified flips.
+func (w *World) Seasoned() {
+	prev := w.Genesis
+	w.Genesis = func(app *appstate.AppState) {
+		if prev != nil {
+			prev(app)
+		}
+		for a := range w.Opts.Alloc {
+			if app.State.GetIdentityState(a).NewbieOrBetter() || app.State.GetIdentityState(a) == state.Suspended || app.State.GetIdentityState(a) == state.Zombie {
+				for k := 0; k < 4; k++ {
+					app.State.AddNewScore(a, common.EncodeScore(6, 6))
+				}
+			}
+		}
+	}
+}
+
+// Sharded makes the genesis state a network of n shards: the allocated identities are spread round-robin (in address
+// order) and the shard sizes count them, so that several shards tie for the minimal size.
+func (w *World) Sharded(n int) {
+	prev := w.Genesis
+	w.Genesis = func(app *appstate.AppState) {
+		if prev != nil {
+			prev(app)
+		}
+		var addrs []common.Address
+		for a := range w.Opts.Alloc {
+			addrs = append(addrs, a)
+		}
+		sort.Slice(addrs, func(i, j int) bool { return bytes.Compare(addrs[i][:], addrs[j][:]) < 0 })
+		sizes := map[common.ShardId]uint32{}
+		for i, a := range addrs {
+			id := common.ShardId(1 + i%n)
+			app.State.SetShardId(a, id)
+			switch app.State.GetIdentityState(a) {
+			case state.Newbie, state.Verified, state.Human, state.Suspended:
+				sizes[id]++
+			}
+		}
+		app.State.SetShardsNum(uint32(n))
+		for id := common.ShardId(1); id <= common.ShardId(n); id++ {
+			app.State.SetShardSize(id, sizes[id])
+		}
+	}
 }
 
 var DefaultStates = []state.IdentityState{state.Verified, state.Newbie, state.Human, state.Suspended, state.Verified, state.Candidate, state.Zombie, state.Candidate, state.Human, state.Verified, state.Newbie, state.Invite}
@@ -321,7 +382,13 @@ func (w *World) StartNode(db dbm.DB, ki int, attachCeremony bool) (*Node, error)
 	if db == nil {
 		db = dbm.NewMemDB()
 	}
-	return Start(db, w.Keys[ki], w.Cfg(), attachCeremony)
+	blockchain.VerifGenesisHook = w.Genesis
+	defer func() { blockchain.VerifGenesisHook = nil }()
+	n, err := Start(db, w.Keys[ki], w.Cfg(), attachCeremony)
+	if err == nil && w.Genesis != nil && !blockchain.VerifGenesisHookSite {
+		return nil, fmt.Errorf("genesis hook site not found in generateGenesis (overlay instrumentation)")
+	}
+	return n, err
 }
 
 func (w *World) Index(a common.Address) int {
@@ -344,17 +411,27 @@ func NewSender(w *World) *Sender {
 	return &Sender{W: w, nonce: make([]uint32, len(w.Keys)), nEpoch: make([]uint16, len(w.Keys))}
 }
 
-// Sign fills nonce/epoch/maxFee from the node's canonical state and signs with key i. It does not bump the counter.
+// Sign fills nonce/epoch/maxFee from the node's canonical state and its pool and signs with key i: the nonce is the
+// smallest one above the state's that no transaction of the sender waiting in the node's pool uses (a transaction that
+// the pool dropped or that can no longer be mined never leaves a gap behind).
 func (s *Sender) Sign(n *Node, i int, tx *types.Transaction) *types.Transaction {
 	ep := n.App.State.Epoch()
-	if s.nEpoch[i] != ep {
-		s.nEpoch[i], s.nonce[i] = ep, 0
+	base := uint32(0)
+	if n.App.State.GetEpoch(s.W.Addrs[i]) == ep {
+		base = n.App.State.GetNonce(s.W.Addrs[i])
 	}
-	st := n.App.State.GetNonce(s.W.Addrs[i])
-	if n.App.State.GetEpoch(s.W.Addrs[i]) == ep && st > s.nonce[i] {
-		s.nonce[i] = st
+	used := map[uint32]bool{}
+	for _, p := range n.Pool.GetPendingByAddress(s.W.Addrs[i]) {
+		if p.Epoch == ep {
+			used[p.AccountNonce] = true
+		}
 	}
-	tx.AccountNonce, tx.Epoch = s.nonce[i]+1, ep
+	next := base + 1
+	for used[next] {
+		next++
+	}
+	s.nEpoch[i], s.nonce[i] = ep, next-1
+	tx.AccountNonce, tx.Epoch = next, ep
 	if tx.MaxFee == nil {
 		// validation refuses maxFee/minFeePerGas > block gas cap ("too high max fee"): scale with the network size
 		tx.MaxFee = Dna(200)
